@@ -30,6 +30,7 @@ type Divergence struct {
 // observable result with the primary's. The oracle's package-level state is reset to the
 // "fresh process" state at every (re)start, so exactly one instance's globals are live.
 func (r *Run) RunReplica(o ReplicaOpts) (*Divergence, *PanicError) {
+	defer quietApp()()
 	n := NewNode(o.Name, r.Cfg.ChainID, dbm.NewMemDB())
 	if err := n.Start(); err != nil {
 		return &Divergence{0, "start", err.Error()}, nil
